@@ -3,6 +3,7 @@
 package main
 
 import (
+	"fmt"
 	"math/rand"
 	"net"
 	"sync"
@@ -83,3 +84,20 @@ func raceStores(rng *rand.Rand, n int) {
 	<-red.Stop()
 	mr.Close()
 }
+
+// RACE: the same real-concurrency workloads, meant to be run from a driver built with -race:
+// concurrent datagrams through the real UDP frontend, and concurrent operations on both stores.
+func init() {
+	props["RACE"] = &propDef{glue: "GE", ctype: "ecase", chk: "chkE04", stream: raceStream, replay: func(*Out, map[string]interface{}) error {
+		return fmt.Errorf("not replayable case by case; re-run the check")
+	}, shard: 4, prelude: "From Chihaya Require Import Glue.G06 Glue.G10."}
+}
+
+func raceStream(o *Out, rng *rand.Rand, n int) {
+	for r := 0; r < n/40+1; r++ {
+		stressRound(o, rng, 24, 5)
+		stressAnnRound(o, rng, 24, 4)
+	}
+	raceStores(rng, n)
+}
+
